@@ -24,6 +24,10 @@ pub enum K8 {
     AvxU32,
     Arm(Forced),
     Scalar,
+    /// block-wise through score_rows_into on a reused buffer
+    GenRanges,
+    AvxRanges,
+    ArmRanges(Forced),
 }
 
 impl K8 {
@@ -36,6 +40,9 @@ impl K8 {
             K8::AvxU32 => "avx2/U32".into(),
             K8::Arm(a) => format!("dispatch[{}]/U32", cfgs::arm_name(*a)),
             K8::Scalar => "DiscreteMatrix::score_position".into(),
+            K8::GenRanges => "generic/U32 row blocks".into(),
+            K8::AvxRanges => "avx2/U32 row blocks".into(),
+            K8::ArmRanges(a) => format!("dispatch[{}]/U32 row blocks", cfgs::arm_name(*a)),
         }
     }
     pub fn all_dna() -> Vec<K8> {
@@ -44,6 +51,11 @@ impl K8 {
             v.push(K8::Arm(a));
         }
         v.push(K8::Scalar);
+        v.push(K8::GenRanges);
+        v.push(K8::AvxRanges);
+        for a in cfgs::FORCED {
+            v.push(K8::ArmRanges(a));
+        }
         v
     }
     fn all_protein() -> Vec<K8> {
@@ -67,6 +79,42 @@ where
     scores.unstripe().to_vec()
 }
 
+/// Same positions, but computed block by block through `score_rows_into` on ONE reused buffer
+/// (rows 0..1, 1..a, a..R with a = ceil(R/2)): what the scanner does with its blocks.
+fn u8_scores_ranges<A, C, PS>(ps: &PS, syms: &[A::Symbol], pssm: &ScoringMatrix<A>, dm: &DiscreteMatrix<A>) -> Vec<u8>
+where
+    A: Alphabet,
+    C: PositiveLength,
+    PS: Score<u8, A, C>,
+{
+    let mut striped: StripedSequence<A, C> = Pipeline::<A, Generic>::generic().stripe(syms);
+    striped.configure(pssm);
+    let r = striped.matrix().rows() - striped.wrap();
+    let l = syms.len();
+    let m = pssm.len();
+    let valid = if l >= m { l - m + 1 } else { 0 };
+    let mut out = vec![0u8; valid];
+    let mut scores = StripedScores::<u8, C>::empty();
+    let a = (r + 1) / 2;
+    // larger block first, then smaller ones: the buffer shrinks and grows
+    for (lo, hi) in [(a, r), (0usize, 1usize.min(r)), (1usize.min(r), a.max(1usize.min(r)))] {
+        if lo >= hi {
+            continue;
+        }
+        ps.score_rows_into(dm, &striped, lo..hi, &mut scores);
+        assert_eq!(scores.matrix().rows(), hi - lo, "score_rows_into({}..{}) produced {} rows", lo, hi, scores.matrix().rows());
+        for row in lo..hi {
+            for col in 0..C::USIZE {
+                let p = col * r + row;
+                if p < valid {
+                    out[p] = scores.matrix()[row - lo][col];
+                }
+            }
+        }
+    }
+    out
+}
+
 fn scalar_scores<A: Alphabet>(syms: &[A::Symbol], pssm: &ScoringMatrix<A>, dm: &DiscreteMatrix<A>) -> Vec<u8> {
     let mut striped: StripedSequence<A, U32> = Pipeline::<A, Generic>::generic().stripe(syms);
     striped.configure(pssm);
@@ -84,6 +132,9 @@ fn run_kernel_dna(k: K8, syms: &[<Dna as Alphabet>::Symbol], pssm: &ScoringMatri
         K8::AvxU32 => u8_scores::<Dna, U32, _>(&Pipeline::<Dna, Avx2>::avx2().unwrap(), syms, pssm, dm),
         K8::Arm(a) => with_arm(a, || u8_scores::<Dna, U32, _>(&Pipeline::<Dna, Dispatch>::dispatch(), syms, pssm, dm)),
         K8::Scalar => scalar_scores::<Dna>(syms, pssm, dm),
+        K8::GenRanges => u8_scores_ranges::<Dna, U32, _>(&g, syms, pssm, dm),
+        K8::AvxRanges => u8_scores_ranges::<Dna, U32, _>(&Pipeline::<Dna, Avx2>::avx2().unwrap(), syms, pssm, dm),
+        K8::ArmRanges(a) => with_arm(a, || u8_scores_ranges::<Dna, U32, _>(&Pipeline::<Dna, Dispatch>::dispatch(), syms, pssm, dm)),
     }
 }
 
@@ -299,7 +350,7 @@ pub fn run(ctx: &mut Ctx, rep: &mut Report) {
         rep.space(
             "menu",
             "product: all 7^M DNA matrices built from a 7-row menu (incl. rows whose byte image is x.5, so that already M=2 pushes the consensus sum past 255), M in 1..=4 (thorough 1..=5), \
-             x wildcard column {-inf, row minimum - 1, row mean} x 9 kernels {generic U16/U32, sse2 U16/U32, avx2 saturating, dispatcher arms, scalar DiscreteMatrix::score_position} \
+             x wildcard column {-inf, row minimum - 1, row mean} x 14 kernels {generic U16/U32, sse2 U16/U32, avx2 saturating, dispatcher arms, scalar DiscreteMatrix::score_position; generic / avx2 / dispatcher arms block by block through score_rows_into on a reused buffer} \
              on a de Bruijn word containing EVERY 5^M window (wildcard included); oracle: u8 >= scale(real) at every position and, for every attainable threshold, real>=t => u8>=scale(t); \
              evaluations = kernel runs; non-trivial = some window has a finite real score",
         );
